@@ -194,6 +194,10 @@ func resolveOutputDescriptor(outputDescriptor *OutputDescriptor,
 	vc map[string]interface{}) (*ResolvedDescriptor, error) {
 	var resolved ResolvedDescriptor
 
+	if outputDescriptor.Display == nil {
+		return nil, errors.New("output descriptor has no display")
+	}
+
 	staticDisplayMappings, err := resolveStaticDisplayMappingObjects(outputDescriptor, vc)
 	if err != nil {
 		return nil, err
@@ -262,6 +266,10 @@ func resolveDescriptorProperties(properties []*LabeledDisplayMappingObject,
 
 func resolveDisplayMappingObject(displayMappingObject *DisplayMappingObject,
 	vc map[string]interface{}) (interface{}, error) {
+	if displayMappingObject == nil { // title, subtitle and description are optional
+		return "", nil
+	}
+
 	if len(displayMappingObject.Paths) > 0 {
 		resolvedValue, err := resolveJSONPathsUsingVC(displayMappingObject.Paths, displayMappingObject.Fallback, vc)
 		return resolvedValue, err
